@@ -306,34 +306,111 @@ func c12Keepalive(w *World, r *Report, rule string) {
 	r.Check(badT == "" && nOK > 0 && nFail > 0, rule, "xmpp.keepalive#case:tick", w.ipos(sel), badT+fmt.Sprintf(" (ok paths %d, failure paths %d)", nOK, nFail), "one Ping per tick; failure ⇒ Close and return; success ⇒ next select")
 }
 
-// goroutine inventory
-var goTable = map[string]string{
-	"xmpp.(*Client).Connect→xmpp.keepalive":                       "exits when recv closes the quit channel or after a failed ping (R3)",
-	"xmpp.(*Client).Connect→xmpp.Client.recv":                     "exits on read error or stream close (R1)",
-	"xmpp.(*Client).Resume→xmpp.keepalive":                        "as Connect",
-	"xmpp.(*Client).Resume→xmpp.Client.recv":                      "as Connect",
-	"xmpp.(*Client).connect→xmpp.(*Client).connect$1":             "drain goroutine of a failed negotiation: exits on read error or stream close",
-	"xmpp.(*Client).recv→xmpp.Router.route":                       "one per packet; terminates unless a handler blocks (application) — delivery to a pending IQ channel is judged by C07.R2",
-	"xmpp.(*Router).NewIQResultRoute→xmpp.(*Router).NewIQResultRoute$1": "waits for the request context to end, then unregisters",
-	"xmpp.(WebsocketTransport).startReader→xmpp.(WebsocketTransport).startReader$1": "exits when the websocket reader fails (closed connection or cancelled context)",
-	"xmpp.(*Component).Resume→xmpp.Component.recv":                "component receive loop: exits on read error or stream close",
+// goroutine inventory: anchors whose termination other rules establish; anything else must be a loop around a
+// fallible blocking call that leaves on error, or have no loop at all.
+var goAnchors = map[string]string{
+	"xmpp.keepalive":       "exits when recv closes the quit channel or after a failed ping (R3)",
+	"xmpp.Client.recv":     "exits on read error or stream close (R1)",
+	"xmpp.Component.recv":  "component receive loop: exits on read error or stream close",
+	"xmpp.Router.route":    "one per packet; terminates unless a handler blocks (application) — delivery to a pending IQ channel is judged by C07.R2",
+}
+
+// leavesOnError: every cycle of fn (bounded range loops aside) passes through a call with an error result whose
+// non-nil edge leaves the function. Returns "" if so.
+func leavesOnError(w *World, fn *ssa.Function) string {
+	skip := map[*ssa.BasicBlock]bool{}
+	for _, l := range findRangeLoops(fn) {
+		skip[l.header] = true
+	}
+	for _, b := range fn.Blocks {
+		for _, in := range b.Instrs {
+			c, ok := in.(*ssa.Call)
+			if !ok {
+				continue
+			}
+			res := c.Call.Signature().Results()
+			if res.Len() == 0 || res.At(res.Len()-1).Type().String() != "error" {
+				continue
+			}
+			ev := errResult(c)
+			if ev == nil {
+				continue
+			}
+			leaves := false
+			for _, bb := range fn.Blocks {
+				for si := range bb.Succs {
+					cv, truth, isIf := edgeAssertion(bb, si)
+					if !isIf || !assertsNonNil(cv, truth, ev) {
+						continue
+					}
+					if !reachable(Loc{bb.Succs[si], 0}, func(x ssa.Instruction) bool { return x == ssa.Instruction(c) }, nil, nil) {
+						leaves = true
+					}
+				}
+			}
+			if leaves {
+				skip[b] = true
+			}
+		}
+	}
+	color := map[*ssa.BasicBlock]int{}
+	var cyc *ssa.BasicBlock
+	var dfs func(b *ssa.BasicBlock)
+	dfs = func(b *ssa.BasicBlock) {
+		color[b] = 1
+		for _, s := range b.Succs {
+			if skip[s] {
+				continue
+			}
+			if color[s] == 1 {
+				cyc = s
+			} else if color[s] == 0 {
+				dfs(s)
+			}
+		}
+		color[b] = 2
+	}
+	for _, b := range fn.Blocks {
+		if color[b] == 0 && !skip[b] {
+			dfs(b)
+		}
+	}
+	if cyc != nil {
+		return fmt.Sprintf("it has a loop (block %d) that no failing call leaves", cyc.Index)
+	}
+	return ""
 }
 
 func c12Goroutines(w *World, r *Report) {
-	seen := map[string]bool{}
 	for _, f := range w.LibFuncs() {
 		allInstrs(f, func(in ssa.Instruction) {
 			g, ok := in.(*ssa.Go)
 			if !ok {
 				return
 			}
-			k := w.funcKey(f) + "→" + w.callKey(g)
-			seen[k] = true
-			if why, ok := goTable[k]; ok {
-				r.Ok("R4", "go:"+k, why)
-			} else {
-				r.Undecided("R4", "go:"+k, w.ipos(in), "a goroutine is started that is not in the frozen inventory: nothing establishes that it ends with the session")
+			key := w.callKey(g)
+			cons := "go:" + w.ownerKey(f) + "→" + key
+			if why, ok := goAnchors[key]; ok {
+				r.Ok("R4", cons, why)
+				return
 			}
+			var started *ssa.Function
+			if callee := g.Call.StaticCallee(); callee != nil && callee.Blocks != nil {
+				started = callee
+			} else if mc, ok := g.Call.Value.(*ssa.MakeClosure); ok {
+				started, _ = mc.Fn.(*ssa.Function)
+			}
+			if started == nil || !w.inModule(started) {
+				r.Undecided("R4", cons, w.ipos(in), "a goroutine is started on a function the analysis cannot see: nothing establishes that it ends with the session")
+				return
+			}
+			// the symbolic construct of a closure / new function: by what it is, not by its name
+			cons = "go:" + w.ownerKey(f) + "→" + goroutineRole(w, started)
+			if why := leavesOnError(w, started); why != "" {
+				r.Fail("R4", cons, w.ipos(in), "a goroutine is started whose body does not end with the session: "+why)
+				return
+			}
+			r.Ok("R4", cons, "no loop, or every loop passes through a fallible call and leaves when it fails")
 		})
 	}
 	r.Floor("R4", 6)
@@ -447,3 +524,17 @@ func describeChan(w *World, ch ssa.Value) string {
 }
 
 var _ = types.Typ
+
+// goroutineRole names a started function by what it does (stable under renaming / closure-to-method refactoring).
+func goroutineRole(w *World, fn *ssa.Function) string {
+	has := func(keys ...string) bool { return len(w.callsInH(fn, keys...)) > 0 }
+	switch {
+	case has("stanza.NextPacket"):
+		return "packet-drain-loop"
+	case has("nhooyr.io/websocket.Conn.Reader"):
+		return "websocket-reader-loop"
+	case has("context.Context.Done"):
+		return "context-watcher"
+	}
+	return "function:" + w.funcKey(fn)
+}
